@@ -213,7 +213,8 @@ def check_visit(model: Model, report: Report, rule_order: str, rule_depth: Optio
         raise AnalysisError("anchor vanished: JSONPathRecursiveDescentSegment._visit")
     params = [a.arg for a in fn.node.args.args]
     if len(params) < 3:
-        raise AnalysisError("_visit no longer takes (self, node, depth)")
+        _check_visit_without_depth(model, report, rule_depth or rule_order, fn)
+        return
     for kind in KINDS:
         for region in ("within", "exceeded"):
 
@@ -254,6 +255,45 @@ def check_visit(model: Model, report: Report, rule_order: str, rule_depth: Optio
                 report.ok(rule_order, fn.qualname, cell, detail={"paths": len(runs)})
                 if rule_depth:
                     report.ok(rule_depth, fn.qualname, cell, detail={"paths": len(runs)})
+    report.touched(fn.qualname)
+
+
+def _check_visit_without_depth(model: Model, report: Report, rule: str, fn: Any) -> None:
+    """The visitor has no depth parameter.  Whatever it measures instead, the node the segment is applied to is at
+    depth 1 <= limit whatever its own location, so visiting it must not raise; if it cannot, the relation between
+    the guard and the nesting below that node is not something this rule can read off."""
+    cell = "visit:start-node:any-location"
+    problems: List[str] = []
+    n_paths = 0
+    for kind in ("list", "dict"):
+
+        def body(it: Interp, kind=kind) -> Any:
+            env = make_env(it, model, False)
+            seg = make_segment(it, model, "segments.JSONPathRecursiveDescentSegment", env)
+            v = it.new_sym("V", [kind])
+            node = make_node(it, model, v, "node")
+            it.hooks["__recursion_cut__"] = {fn.qualname}
+            ev, term = run_trace(it, fn, [seg, node], seg)
+            return ev, term
+
+        try:
+            runs = paths(model, body)
+        except Unsupported as err:
+            report.undecided(rule, fn.qualname, f"{cell}: {err}")
+            return
+        for run in runs:
+            n_paths += 1
+            term = run.value[1] if run.kind != "raise" else None
+            exc = run.value if run.kind == "raise" else (term.exc if term is not None else None)
+            if exc is not None:
+                name = exc.cls.name if isinstance(exc, Inst) else describe(exc)
+                p = f"visiting the node the segment is applied to (depth 1, within every limit) can raise {name}: the guard measures something else than the nesting below that node (e.g. the length of the node's own location, which also counts the segments before '..')"
+                if p not in problems:
+                    problems.append(p)
+    for p in problems:
+        report.fail(rule, fn.qualname, cell, p, file=fn.file, line=fn.line)
+    if not problems:
+        report.undecided(rule, fn.qualname, f"{cell}: _visit has no depth parameter and never raises at its start node; how its guard relates to nesting below the start node is not decidable by this rule ({n_paths} paths)")
     report.touched(fn.qualname)
 
 
